@@ -113,6 +113,10 @@ def assume(cond: Any, reason: str = "") -> None: ...
 def check(cond: Any, label: str = "") -> None: ...
 def fresh_result(typ: Any = None) -> None: ...
 def sample(**types: Any) -> None: ...
+def sample_with(generator: Any) -> None: ...
+def verify_types(**types: Any) -> None: ...
+def replay_with(realize: Any) -> None: ...
+def known_finding(finding_id: str, when: Any = True) -> None: ...
 
 
 # ---- type descriptors -----------------------------------------------------------------------------
